@@ -55,6 +55,9 @@ type scanner struct {
 	// to take into account the nesting of SCHEME elements.
 	stack *ds.Stack[lexeme.LexEvent]
 
+	// arrayFound is true once the opening square brace was seen.
+	arrayFound bool
+
 	// uniqueValues represent a map of found values.
 	// Useful for duplication tracking.
 	uniqueValues map[enumItemValue]struct{}
@@ -191,6 +194,10 @@ func (s *scanner) Next() (lexeme.LexEvent, error) {
 
 func (s *scanner) processTail() (lexeme.LexEvent, error) {
 	if s.stack.Len() == 0 {
+		if !s.arrayFound && !s.lengthComputing {
+			// Nothing but blanks: an enum rule is a bracketed list.
+			return lexeme.LexEvent{}, kit.NewJSchemaError(s.file, errs.ErrEnumArrayExpected.F())
+		}
 		return lexeme.LexEvent{}, errEOS
 	}
 
@@ -233,6 +240,7 @@ func (s *scanner) stateBegin(c byte) (state, error) {
 		return scanSkip, err
 	}
 
+	s.arrayFound = true
 	s.found(lexeme.ArrayBegin)
 	s.step = s.stateFoundArrayItemBeginOrEmpty
 	return scanSkip, nil
